@@ -63,6 +63,9 @@ def gen_robot(rng, prefix, tier):
             if jt != "fixed":
                 jinfo.append({"name": jn, "type": jt, "lo": lo if jt != "continuous" else -math.pi,
                               "hi": hi if jt != "continuous" else math.pi})
+    if rng.chance(0.5):  # fault `order`: links (hence colliders) are declared / registered in a seeded order
+        rng.shuffle(links)
+        rng.shuffle(joints)
     urdf = '<?xml version="1.0"?><robot name="%srobot">%s%s</robot>' % (prefix, "".join(links), "".join(joints))
     return {"urdf": urdf, "base": "%s0" % prefix, "geoms": geoms, "joints": jinfo, "links": ["%s%d" % (prefix, i) for i in range(n)],
             "scale": scale, "branching": bool(branching and n > 2)}
